@@ -16,7 +16,7 @@ use wirefilter::ParserSettings;
 pub const ID: &str = "C11";
 
 /// (text, quantifiable)
-const ATOMS: [(&str, bool); 13] = [
+const ATOMS: [(&str, bool); 14] = [
     // an escaped quote inside a class must reach the engine unchanged
     ("[\\\"]", true),
     ("[a\\\"]", true),
@@ -28,6 +28,8 @@ const ATOMS: [(&str, bool); 13] = [
     ("[\"]", true),
     ("[\\]\"]", true),
     ("\\x61", true),
+    // a non-ASCII character denotes its UTF-8 bytes and does not switch the matcher to Unicode mode
+    ("\u{e9}", true),
     ("\"", true),
     ("^", false),
     ("$", false),
@@ -120,7 +122,7 @@ pub fn run(tier: Tier, seed: u64) -> i32 {
         }
         let texts: Vec<String> = texts.into_iter().filter(|t| rx::supported(t)).collect();
         run.set("regex_patterns", json!(texts.len()));
-        let vals = values(&[b'a', b'b', b'A', b'"', b'\n', 0xff], 3);
+        let vals = values(&[b'a', b'b', b'A', b'"', b'\n', 0xff, 0xc3, 0xa9], 3);
         let mut ctxs: Vec<MCtx> = vals
             .iter()
             .map(|v| {
